@@ -10,6 +10,10 @@ BASELINE_OFF = ("cd /repo && GOFLAGS=-mod=mod GOPROXY=off GOSUMDB=off go test -j
 
 # id -> (level, engine, technique, text, note, design_ref)
 CHECKS = {
+ "C06": ("model_checking", "E1-histories+inputs",
+   "explicit-state BFS over fork/staleness histories on a real 3-node cluster plus an exhaustive matrix of non-extending and corrupt LTX files offered through the three entry points",
+   "Part 1: BFS from fork preludes (equal TXID with different checksum, former primary ahead by two, fork behind) in both journal modes over transactions, partitions, demotions, retention, restarts and late joiners: every node's image equals the primary's at the position it reports, every log is one chain, connected nodes converge. Part 2: for each entry point (stream from a scripted primary into the real replica loop, POST /tx under a halt lock, restore from a backup service) x journal mode x {valid control, wrong/gapped/lower MinTXID, wrong pre-checksum, flipped page / header / trailer bytes, nine truncation classes, garbage, malformed snapshots}: database bytes, position and log unchanged, node keeps running and restarts cleanly.",
+   "Same lab as C01; LTX files are built with the ltx module's encoder. Forged files with a valid CRC but a lying post-apply checksum are out of scope.", "§4 C06"),
  "C07": ("model_checking", "E1-sequences",
    "exhaustive enumeration of operation sequences on a replica's mount: full rollback and WAL transaction scripts continued past refusals with every extra mutating operation inserted at every position; digest compared after every operation",
    "On a connected, caught-up replica the 28-step rollback script (with and without a left-over journal) and the 23-step WAL script are run through the real FUSE handlers with each of 35 extra operations (writes of every alignment, truncates, journal/WAL/SHM create-write-truncate-unlink, lock and unlock incl. the WAL capture trigger, database unlink, /import to the replica, a primary commit) inserted at every position; after every single operation the replica's position, logical image and LTX directory contents must be unchanged, page/journal/WAL writes must fail with EACCES, and modes must be 0444/0555 on the replica vs 0666/0777 on the primary; the position moves only when the primary commits.",
